@@ -1009,7 +1009,7 @@ Section SearchTheorems.
       assert (A : exists c, ann R rid da deleted flt peek pop true (S k' * rf) np me hf' deltas = Ok c).
       { unfold ann. destruct (seq_outcome_total (map (part_search R da peek pop true (S k' * rf) me (sel R deleted flt hf')) (concat (map (firstn np) deltas)))) as (ls & ->); [|eexists; reflexivity].
         intros o Ho. apply in_map_iff in Ho. destruct Ho as (p & <- & _). unfold part_search. cbn [negb].
-        destruct me; apply (heap_loop_total R da peek pop hok); nia. }
+        destruct me; apply (heap_loop_total R rid da peek pop hok); nia. }
       destruct A as (c & ->).
       destruct refine as [[|n]|]; [congruence | |]; (destruct fast; [eexists; reflexivity|]; destruct fresh; eexists; reflexivity). }
     destruct pre; [apply V|]. destruct (V false) as ([rows b] & ->). eexists; reflexivity.
@@ -1037,3 +1037,46 @@ Proof.
   - apply IH. intros y Hy. apply Hn. right. exact Hy.
   - rewrite Forall_forall in *. intros y Hy. rewrite spec_leb_key_leb; [apply Hx, Hy | apply Hn; left; reflexivity | apply Hn; right; exact Hy].
 Qed.
+
+(* ---------------------------------------------------------------- the merge theorem on distance lists *)
+Lemma isort_sorted_id : forall l, StronglySorted (fun a b => key_leb a b = true) l -> isort key_leb l = l.
+Proof.
+  intros l H. apply (sorted_perm_eq key_leb key_leb_antisym); [|exact H|].
+  - apply isort_sorted; [apply key_leb_total | apply key_leb_trans].
+  - apply isort_perm.
+Qed.
+
+Lemma map_sorted {A} (f : A -> key) l :
+  StronglySorted (fun x y => key_leb (f x) (f y) = true) l -> StronglySorted (fun a b => key_leb a b = true) (map f l).
+Proof.
+  intros H. induction H as [|x t Ht IH Hx]; cbn [map]; constructor; [exact IH|].
+  rewrite Forall_forall in *. intros b Hb. apply in_map_iff in Hb. destruct Hb as (y & <- & Hy). apply Hx, Hy.
+Qed.
+
+Section MergeTheorem.
+  Variable R : Type.
+  Variable rid : R -> N.
+  Variable f : R -> key.
+
+  (* any per-part top-k' selections (k <= k'), merged and re-ranked, carry the distances of the global top-k *)
+  Lemma merge_any_keys : forall k k' parts sels, (k <= k')%nat ->
+    Forall2 (fun p s => is_topk key_leb f k' p s) parts sels ->
+    map f (topk_by R rid f k (concat sels)) = map f (topk_by R rid f k (concat parts)).
+  Proof.
+    intros k k' parts sels Hk F2.
+    destruct (build_ts R f k' (fun p => p) parts sels F2) as (ts & E1 & E2 & HF). rewrite map_id in E1.
+    assert (T1 : is_topk key_leb f k (concat parts) (topk_by R rid f k (concat sels))).
+    { rewrite <- E1. apply (merge_is_topk key_leb key_leb_total key_leb_trans f k k' ts); [exact Hk | exact HF|].
+      rewrite E2. apply topk_by_is_topk. }
+    pose proof (topk_by_is_topk R rid f k (concat parts)) as T2.
+    pose proof (is_topk_keys_unique key_leb key_leb_total key_leb_trans f key_leb_antisym k _ _ _ T1 T2) as E.
+    rewrite !isort_sorted_id in E by (apply map_sorted, topk_by_sorted). exact E.
+  Qed.
+
+  Lemma merge_topk_keys : forall k parts,
+    map f (topk_by R rid f k (concat (map (topk_by R rid f k) parts))) = map f (topk_by R rid f k (concat parts)).
+  Proof.
+    intros k parts. apply (merge_any_keys k k parts); [lia|].
+    induction parts as [|p t IH]; cbn [map]; constructor; [apply topk_by_is_topk | exact IH].
+  Qed.
+End MergeTheorem.
